@@ -5,7 +5,8 @@ import QuinnModel.Gen.DgramMtud
 Model of quinn-proto/src/connection/datagrams.rs (complete): `DatagramState::{received, make_space_for,
 has_send_buffer_space, drop_oversized, write, recv}`, `Datagrams::{send, max_size, recv, send_buffer_space}`,
 plus `frame::Datagram::{encode,size}` (length = true), and the two pieces of `Connection` glue that clear
-`send_blocked` (the DATAGRAM loop of `populate_packet`, the black-hole branch of `detect_lost_packets`).
+`send_blocked` (the DATAGRAM loop of `populate_packet`, the black-hole branch of `detect_lost_packets`, the
+head-of-queue purge `drop_unsendable_datagrams` at the top of `poll_transmit`).
 What `Datagrams::{send,max_size}` read from the `Connection` are explicit inputs.
 Every comparison / arithmetic expression is the generated translation of the Rust text (`Gen.dg*`, T1).
 A datagram is its payload (`Bytes`); `usize` is 64 bit.  Panics (checked `usize` arithmetic in a debug
@@ -72,8 +73,12 @@ def encodeFrame (d : Bytes) : Option Bytes :=
 
 /-! ### Datagrams::max_size and its inputs -/
 
-/-- `Connection::predict_1rtt_overhead(None)` with no 1-RTT / 0-RTT keys installed -/
-def overhead (cidLen : Nat) : Nat := Gen.dgOverhead cidLen Gen.dgPnLenBound Gen.dgTagLenGuess
+/-- `Connection::predict_1rtt_overhead(None)` with the 16-byte tag guess.  `scid = some l`: no 1-RTT keys yet —
+    application data travels in 0-RTT packets, whose long header carries the version, both CID lengths, the
+    local handshake CID (`l` bytes) and a two-byte length on top; `none`: 1-RTT keys, short header -/
+def overhead (cidLen : Nat) (scid : Option Nat) : Nat :=
+  Gen.dgOverhead cidLen Gen.dgPnLenBound Gen.dgTagLenGuess
+    (match scid with | none => 0 | some l => Gen.dgLongHeaderExtra l)
 
 /-- `Datagrams::max_size`; outer `none` = a checked `usize` subtraction underflows -/
 def maxSize (currentMtu overhead : Nat) (peerLimit : Option Nat) : Option (Option Nat) :=
@@ -196,6 +201,22 @@ def dropOversized (s : State) (maxPayload : Nat) : State × Out :=
   | none => (s, .panic)
   | some (q, t, any) => ({ s with outgoing := q, outgoingTotal := t }, .dropped any)
 
+/-- `DatagramState::drop_oversized_front` on (queue, total): `none` = underflow panic -/
+def dropFront (maxPayload : Nat) : List Bytes → Nat → Option (List Bytes × Nat × Bool)
+  | [], total => some ([], total, false)
+  | d :: rest, total =>
+    if Gen.dgFrontFits d.length maxPayload then some (d :: rest, total, false)
+    else if total < d.length then none
+    else match dropFront maxPayload rest (total - d.length) with
+      | none => none
+      | some (q, t, _) => some (q, t, true)
+
+/-- `DatagramState::drop_oversized_front` (state after a panic: unspecified, the model leaves it unchanged) -/
+def dropOversizedFront (s : State) (maxPayload : Nat) : State × Out :=
+  match dropFront maxPayload s.outgoing s.outgoingTotal with
+  | none => (s, .panic)
+  | some (q, t, any) => ({ s with outgoing := q, outgoingTotal := t }, .dropped any)
+
 /-- `DatagramState::write` -/
 def write (s : State) (buf : Bytes) (maxSize : Nat) : State × Out :=
   match s.outgoing with
@@ -240,6 +261,18 @@ def blackHoleGlue (s : State) (max : Option Nat) : State × Out :=
       else (s', .glue (some (any, false)))
     | (s', _) => (s', .panic)
 
+/-- `Connection::drop_unsendable_datagrams`, run at the top of every `poll_transmit` of a connection that is not
+    closing; `max` = the value of `self.datagrams().max_size()` -/
+def purgeGlue (s : State) (max : Option Nat) : State × Out :=
+  match max with
+  | none => (s, .glue none)
+  | some m =>
+    match dropOversizedFront s m with
+    | (s', .dropped any) =>
+      if any && s'.sendBlocked then ({ s' with sendBlocked := false }, .glue (some (any, true)))
+      else (s', .glue (some (any, false)))
+    | (s', _) => (s', .panic)
+
 /-! ### Operations (for the property theorems) -/
 
 inductive Op where
@@ -250,6 +283,7 @@ inductive Op where
   | writeLoop (buf : Bytes) (maxSize : Nat)
   | dropOversized (maxPayload : Nat)
   | blackHoleGlue (max : Option Nat)
+  | purgeGlue (max : Option Nat)
 deriving Repr, DecidableEq
 
 def step (s : State) : Op → State × Out
@@ -260,5 +294,6 @@ def step (s : State) : Op → State × Out
   | .writeLoop buf m => writeLoop s buf m
   | .dropOversized m => dropOversized s m
   | .blackHoleGlue m => blackHoleGlue s m
+  | .purgeGlue m => purgeGlue s m
 
 end QM.Datagrams
